@@ -10,8 +10,16 @@ ENGINES = [
      "kind_free_text": "explicit-state BFS whose transitions are real setter calls on real objects; exact-state dedup; depth bound or fixpoint"},
 ]
 _PENDING = "check not built yet in this round (machinery under construction; see DESIGN.md section 3)"
-NOT_APPLICABLE = {p: _PENDING for p in ["C01", "C02", "C03", "C06", "C10", "C11", "C13", "C14", "C15", "C16", "C17", "C18"]}
+NOT_APPLICABLE = {p: _PENDING for p in ["C02", "C06", "C10", "C11", "C13", "C14", "C15", "C16", "C17", "C18"]}
 META = {
+    "C03": {"engine": "hist-bfs + refurl/refidna", "design_ref": "3/C03",
+            "technique": "explicit-state BFS whose transitions are real setter calls, run in lockstep with a reference model of the Standard's API setters (state override parser); exact-state dedup; depth bound / fixpoint",
+            "text": "From every initial URL every (setter, value) of the menu is applied to both ada URL types and to the refurl record; after each step the full state must equal the model's, a setter returning false must leave every observable unchanged, every new state must resolve a menu of relative references as the model does, and futures of the state and of its re-parsed twin must agree.",
+            "note": "Trusted: refurl/refidna (validated on WPT before each run). Bounded by the value menu; thorough tier runs to fixpoint or deadline and reports which."},
+    "C01": {"engine": "parse-enum + refurl/refidna", "design_ref": "3/C01",
+            "technique": "bounded exhaustive enumeration of (input, base) pairs executed on the real parser in lockstep with an independent reference model of the Standard's state machine (model traces replayed on the implementation)",
+            "text": "Every (input, base) pair of the token, product and byte spaces is parsed by both ada URL types and by the refurl transcription of the WHATWG basic URL parser; success must agree and href, the ten getters and origin must be equal. The model is validated against the WPT vectors before it is allowed to judge.",
+            "note": "Trusted: refurl/refidna models (validated on WPT urltestdata/setters/IdnaTestV2/toascii), vendored Unicode 17 data. Bounded by alphabets and lengths in evidence."},
     "C12": {"engine": "params-enum", "design_ref": "3/C12",
             "technique": "explicit enumeration of every list state under a length cap and every operation from it (reference-model lockstep on the real object), plus exhaustive init-string, sort and byte round-trip enumerations",
             "text": "Every reachable list up to the cap is built on the real url_search_params (two independent histories), every operation of the menu is applied, and all observers (size, get, get_all, has, has(k,v), three iterators, indexing, to_string) are compared with the list-of-pairs model; sort is compared with a stable UTF-16 code-unit sort on all short key lists; serialise/parse round trip on arbitrary bytes.",
